@@ -302,12 +302,22 @@ impl<'a> KeyNode<'a> {
                     tag,
                     value,
                     raw_tag,
+                    style,
                     ..
                 }) = events.first()
                 {
+                    // The parser reports an empty node as the plain scalar `~`, but one that
+                    // carries an anchor as a plain scalar without text. An anchor must not
+                    // make it a different key (nor the same key as a quoted "").
+                    let anchored_empty_node =
+                        value.is_empty() && *style == ScalarStyle::Plain && raw_tag.is_none();
                     Cow::Owned(KeyFingerprint::Scalar {
                         tag: *tag,
-                        value: value.to_string(),
+                        value: if anchored_empty_node {
+                            "~".to_string()
+                        } else {
+                            value.to_string()
+                        },
                         custom_tag: if *tag == SfTag::Other {
                             raw_tag.as_ref().map(|t| t.to_string())
                         } else {
